@@ -54,4 +54,4 @@ def uniq(x, index=None):
         if indicies.size > 0:
             return index[indicies]
         else:
-            return array([q.size - 1, ], dtype=index.dtype)
+            return array([index[q.size - 1], ], dtype=index.dtype)
